@@ -323,7 +323,7 @@ CLAIMED = {
         "technique": "Coq proof (stream invariant over a fuelled evaluator model with the keyword model plugged in; fuel sufficiency) + differential correspondence",
     },
     "C01": {
-        "text": ("15 theorems (Coq, no axioms) over the evaluator model Eval.v (processor.py's query side, Python "
+        "text": ("18 theorems (Coq, no axioms) over the evaluator model Eval.v (processor.py's query side, Python "
                  "generators as streams): C01_required_sem_partial - for every non-null document and every path of "
                  "the fragment (key incl. Array-of-Hashes pass-through, index, slice, anchor, all five candidate "
                  "loops of a search on '.', a named attribute or a descendant path, all nine operators, inversion, "
@@ -339,7 +339,10 @@ CLAIMED = {
                  "required query yields a node; C01_notation - dot and slash texts of the same segments (every "
                  "segment list C08's wf accepts, all kinds) prepare alike and the required query and exists() give "
                  "EQUAL streams: same results, order, coordinates (equal escaped segments from C08; the unescaped "
-                 "twin parse is read by the required driver for the segment type / collector attributes only).  Tie: model vs "
+                 "twin parse is read by the required driver for the segment type / collector attributes only); "
+                 "C01_results_doc_ordered_partial - with ** only as the last segment the results' locations are "
+                 "pairwise in strict document order (each node once, none with a descendant; ** + another segment "
+                 "is the _refuted witness).  Tie: model vs "
                  "implementation on (location, identity) lists, plus the EXTRACTED spec and an independent "
                  "Python reference as further opinions, on every case."),
         "design_ref": "DESIGN.md section 4 (C01), Appendix C, docs/C01.md",
